@@ -68,14 +68,15 @@ from mc.explorer import Result
 
 MANIFEST = {
     "text": "the real parallel() is executed under a controlled scheduler substituted for joblib.Parallel "
-            "on every completion order of every job list of 0..6 jobs and every <=2-deviation order "
-            "(+reversal/rotations) of 7..64 jobs, for list/dict/generator inputs, n_jobs 1/2/3/16 and "
-            "pbar on/off, and compared with the per-job reference values; right level because the only "
+            "on every completion order of every job list of 0..6 jobs, every <=2-deviation order "
+            "(+reversal/rotations/interleave) of 7, 8, 16, 17 jobs (thorough: also 32, 33, 64 on a reduced set "
+            "of combinations) and every <=1-deviation order of 64 jobs, for list/dict/generator inputs, "
+            "n_jobs 1/2/3/16 and pbar on/off, and compared with the per-job reference values; right level because the only "
             "nondeterminism of the runner is the completion order, which the scheduler enumerates instead "
             "of hoping sleeps produce it",
     "note": "trusted: joblib's documented delivery contract (modelled by mc/sched.VirtualParallel and tied to "
             "the real loky backend by forced-order conformance replays); jobs are pure and picklable; "
-            "lengths > 64 and > 2 deviations beyond 6 jobs not covered",
+            "lengths > 64 and > 2 deviations beyond 6 jobs not covered; 42 (quick: 13) schedules replayed on real loky",
     "technique": "bounded exhaustive schedule enumeration (stateless explicit-state model checking) vs reference model",
 }
 
@@ -322,7 +323,7 @@ def virtual_phases(quick):
 def heavy_phases():
     """thorough only: <= 2 deviations on 32/33/64 jobs for a reduced set of combinations."""
     return [phase("dev2-N32,33", (32, 33), 2, n_jobs=(2, 16), pbars=(None,), values=("id",), pickle=False),
-            phase("dev2-N64", (64,), 2, modes=("list", "dict:str", "generator_unordered", "generator"),
+            phase("dev2-N64", (64,), 2, modes=("list", "dict:str", "generator"),
                   n_jobs=(1, 16), pbars=(None,), values=("id",), pickle=False)]
 
 
